@@ -103,6 +103,13 @@ impl StructParser {
         let fields = item_enum
             .variants
             .iter()
+            // serde never writes (and rejects) a variant carrying #[serde(skip)]
+            .filter(|variant| {
+                !self
+                    .serde_parser
+                    .parse_field_serde_attrs(&variant.attrs)
+                    .skip
+            })
             .map(|variant| {
                 let variant_name = variant.ident.to_string();
 
